@@ -991,3 +991,278 @@ func multiActionAlter(r *Rng, s QSchema, sql string) (string, [][2]string) {
 	}
 	return fmt.Sprintf("ALTER TABLE %s DROP COLUMN %s, %s;\n", t.Name, t.Cols[i].Name, fmt.Sprintf(second, t.Cols[j].Name)), gone
 }
+
+// ---------------------------------------------------------------------------------------------------
+// genWideStmt: statements built from a recursive expression generator and the clause shapes the fixed
+// templates above lack (round-2 lesson: the misses were all shapes nobody generated, never sample size)
+
+type wgen struct {
+	r     *Rng
+	pg    bool
+	n     int // placeholders handed out
+	named bool
+}
+
+func (w *wgen) ph() string {
+	w.n++
+	if !w.pg {
+		return "?"
+	}
+	return fmt.Sprintf("$%d", w.n)
+}
+
+func (w *wgen) lit(ty string) string {
+	switch {
+	case strings.HasPrefix(ty, "int") || strings.HasPrefix(ty, "bigint") || strings.HasPrefix(ty, "numeric") || strings.HasPrefix(ty, "decimal"):
+		return w.r.Pick([]string{"0", "1", "42"})
+	case strings.HasPrefix(ty, "bool"):
+		return w.r.Pick([]string{"true", "false"})
+	}
+	return w.r.Pick([]string{"'x'", "''", "'abc'"})
+}
+
+// expr: a scalar expression over the columns of t (qualified by alias when given)
+func (w *wgen) expr(alias string, t *PTable, depth int) string {
+	c := t.Cols[w.r.Intn(len(t.Cols))]
+	col := qual(alias, c.Name)
+	if depth <= 0 {
+		if w.r.Chance(70) {
+			return col
+		}
+		return w.lit(c.Type)
+	}
+	sub := func() string { return w.expr(alias, t, depth-1) }
+	castT := "text"
+	switch w.r.Intn(16) {
+	case 0, 1, 2:
+		return col
+	case 3:
+		return w.lit(c.Type)
+	case 4:
+		if w.pg {
+			return col + "::" + w.r.Pick([]string{"text", "bigint", "date", "numeric"})
+		}
+		return "CAST(" + col + " AS CHAR)"
+	case 5:
+		return w.r.Pick([]string{"lower", "upper", "length", "abs", "md5"}) + "(" + sub() + ")"
+	case 6:
+		// coalesce in all its forms: column first, cast first, literal first, three arguments
+		switch w.r.Intn(5) {
+		case 0:
+			return "coalesce(" + col + ", " + w.lit(c.Type) + ")"
+		case 1:
+			if w.pg {
+				return "coalesce(" + col + "::" + castT + ", " + sub() + "::" + castT + ")"
+			}
+			return "coalesce(" + sub() + ", " + sub() + ")"
+		case 2:
+			return "coalesce(" + w.lit(c.Type) + ", " + col + ")"
+		case 3:
+			return "coalesce(" + sub() + ", " + sub() + ", " + w.lit(c.Type) + ")"
+		default:
+			if w.pg {
+				return "coalesce(" + col + "::date, " + qual(alias, t.Cols[0].Name) + "::date, now()::date)"
+			}
+			return "coalesce(NULL, " + col + ")"
+		}
+	case 7:
+		return "nullif(" + sub() + ", " + w.lit(c.Type) + ")"
+	case 8:
+		return w.r.Pick([]string{"greatest", "least"}) + "(" + sub() + ", " + sub() + ")"
+	case 9:
+		op := w.r.Pick([]string{"+", "-", "*"})
+		if w.pg && w.r.Chance(30) {
+			op = "||"
+		}
+		return sub() + " " + op + " " + sub()
+	case 10:
+		return "CASE WHEN " + col + " IS NULL THEN " + sub() + " ELSE " + sub() + " END"
+	case 11:
+		if w.pg {
+			return "CASE WHEN " + qual(alias, t.Cols[0].Name) + " > 0 THEN 'p' ELSE " + col + "::text END"
+		}
+		return "CASE " + col + " WHEN 1 THEN 'a' ELSE 'b' END"
+	case 12:
+		return col + " IS NOT NULL"
+	case 13:
+		return col + " " + w.r.Pick([]string{"=", "<>", "<", ">="}) + " " + w.lit(c.Type)
+	case 14:
+		return "(" + sub() + ")"
+	default:
+		return "concat(" + sub() + ", " + sub() + ")"
+	}
+}
+
+func (w *wgen) targets(alias string, t *PTable) string {
+	var ts []string
+	for i := 0; i < 1+w.r.Intn(4); i++ {
+		e := w.expr(alias, t, 2)
+		if w.r.Chance(45) {
+			e += " AS " + w.r.Pick([]string{"x", "label", "total", "id", "name", "v" + fmt.Sprint(i)})
+		}
+		ts = append(ts, e)
+	}
+	return strings.Join(ts, ", ")
+}
+
+func genWideStmt(r *Rng, s QSchema, idx int) (QStmt, string) {
+	q := QStmt{Name: fmt.Sprintf("Q%d", idx), Cmd: ":many"}
+	pg := s.Engine != "mysql"
+	w := &wgen{r: r, pg: pg}
+	t := &s.Tables[r.Intn(3)]
+	u := &s.Tables[(r.Intn(2)+1+indexOfQ(s, t.Name))%3]
+	c1 := t.Cols[1+r.Intn(len(t.Cols)-1)]
+	c2 := t.Cols[1+r.Intn(len(t.Cols)-1)]
+	d1 := u.Cols[1+r.Intn(len(u.Cols)-1)]
+	tag := ""
+	var known []string
+	switch r.Intn(20) {
+	case 0, 1, 2, 3:
+		tag = "expr-targets"
+		al := r.Pick([]string{"", "a"})
+		from := t.Name
+		if al != "" {
+			from += " " + al
+		}
+		q.SQL = "SELECT " + w.targets(al, t) + " FROM " + from
+		if r.Chance(60) {
+			q.SQL += " WHERE " + qual(al, c1.Name) + " = " + w.ph()
+		}
+	case 4:
+		tag = "multi-row-values"
+		q.Cmd = ":exec"
+		rows := 2 + r.Intn(2)
+		var vs []string
+		for i := 0; i < rows; i++ {
+			a, b := w.ph(), w.ph()
+			if r.Chance(25) {
+				b = w.lit(c1.Type)
+				w.n--
+			}
+			vs = append(vs, "("+a+", "+b+")")
+		}
+		// renumber contiguously when a literal replaced a placeholder
+		q.SQL = fmt.Sprintf("INSERT INTO %s (id, %s) VALUES %s", t.Name, c1.Name, strings.Join(vs, ", "))
+		if pg {
+			q.SQL, _ = renumberContiguous(q.SQL)
+		}
+	case 5:
+		tag = "multi-row-values-shared"
+		q.Cmd = ":exec"
+		if pg {
+			q.SQL = fmt.Sprintf("INSERT INTO %s (id, %s) VALUES ($1, $2), ($3, $2), ($4, %s)", t.Name, c1.Name, w.lit(c1.Type))
+			w.n = 4
+		} else {
+			q.SQL = fmt.Sprintf("INSERT INTO %s (id, %s) VALUES (?, ?), (?, ?)", t.Name, c1.Name)
+			w.n = 4
+		}
+	case 6:
+		if pg {
+			tag = "cte-alias-list"
+			q.SQL = fmt.Sprintf("WITH c(a, b) AS (SELECT id, %s FROM %s) SELECT %s FROM c", c1.Name, t.Name, r.Pick([]string{"*", "a, b", "c.b", "c.*"}))
+		} else {
+			tag = "expr-where"
+			q.SQL = fmt.Sprintf("SELECT id FROM %s WHERE %s = ?", t.Name, w.expr("", t, 1))
+			w.n++
+		}
+	case 7:
+		if pg {
+			tag = "derived-alias-list"
+			q.SQL = fmt.Sprintf("SELECT %s FROM (SELECT id, %s FROM %s) AS s(a, b)", r.Pick([]string{"*", "s.a, s.b", "b"}), c1.Name, t.Name)
+			known = append(known, "subselectLeak")
+		} else {
+			tag = "on-duplicate-key"
+			q.Cmd = ":exec"
+			q.SQL = fmt.Sprintf("INSERT INTO %s (id, %s) VALUES (?, ?) ON DUPLICATE KEY UPDATE %s = ?", t.Name, c1.Name, c1.Name)
+			w.n = 3
+			known = append(known, "mysqlOnDuplicate")
+		}
+	case 8:
+		tag = "set-after-subselect"
+		q.Cmd = ":exec"
+		q.SQL = fmt.Sprintf("UPDATE %s SET %s = (SELECT max(b.%s) FROM %s b WHERE b.id = %s.id), %s = %s WHERE id = %s", t.Name, c1.Name, d1.Name, u.Name, t.Name, c2.Name, w.ph(), w.ph())
+		if c1.Name == c2.Name {
+			q.SQL = fmt.Sprintf("UPDATE %s SET %s = (SELECT max(b.%s) FROM %s b) WHERE id = %s", t.Name, c1.Name, d1.Name, u.Name, w.ph())
+		}
+	case 9:
+		if pg {
+			tag = "on-conflict-update"
+			q.Cmd = ":exec"
+			q.SQL = fmt.Sprintf("INSERT INTO %s (id, %s) SELECT b.id, %s FROM %s b WHERE b.%s = %s ON CONFLICT (id) DO UPDATE SET %s = %s", t.Name, c1.Name, w.ph(), u.Name, d1.Name, w.ph(), c2.Name, w.ph())
+		} else {
+			tag = "insert-select-param"
+			q.Cmd = ":exec"
+			q.SQL = fmt.Sprintf("INSERT INTO %s (id, %s) SELECT b.id, ? FROM %s b WHERE b.%s = ?", t.Name, c1.Name, u.Name, d1.Name)
+			w.n = 2
+		}
+	case 10:
+		if pg {
+			tag = "any-param"
+			q.SQL = fmt.Sprintf("SELECT %s FROM %s WHERE %s = ANY(%s)", c2.Name, t.Name, c1.Name, w.ph())
+			if r.Bool() {
+				q.SQL = fmt.Sprintf("SELECT %s FROM %s WHERE id = ANY(%s::bigint[]) AND %s <> ALL(%s)", c2.Name, t.Name, w.ph(), c1.Name, w.ph())
+			}
+		} else {
+			tag = "in-list"
+			q.SQL = fmt.Sprintf("SELECT %s FROM %s WHERE %s IN (?, ?, ?)", c2.Name, t.Name, c1.Name)
+			w.n = 3
+		}
+	case 11:
+		tag = "func-arg-params"
+		a, b := w.ph(), w.ph()
+		q.SQL = fmt.Sprintf("SELECT id FROM %s WHERE lower(%s) = lower(%s) OR upper(%s) = upper(%s)", t.Name, c1.Name, a, c2.Name, b)
+	case 12:
+		tag = "func-arg-repeated-across-calls"
+		a := w.ph()
+		b := w.ph()
+		if !pg {
+			q.SQL = fmt.Sprintf("SELECT id FROM %s WHERE id = ? AND (concat(%s, ?) = 'x' OR concat(%s, ?) = 'y')", t.Name, c1.Name, c2.Name)
+			w.n = 3
+		} else {
+			q.SQL = fmt.Sprintf("SELECT id FROM %s WHERE id = %s AND (strpos(%s::text, %s) > 0 OR strpos(%s::text, %s) > 0)", t.Name, a, c1.Name, b, c2.Name, b)
+		}
+	case 13:
+		tag = "nested-relations"
+		switch r.Intn(4) {
+		case 0:
+			q.SQL = fmt.Sprintf("SELECT id, %s FROM %s WHERE id IN (SELECT b.id FROM %s b WHERE b.%s = %s)", c1.Name, t.Name, u.Name, d1.Name, w.ph())
+		case 1:
+			q.SQL = fmt.Sprintf("SELECT id FROM %s WHERE %s = %s AND EXISTS (SELECT 1 FROM %s)", t.Name, c1.Name, w.ph(), u.Name)
+		case 2:
+			q.SQL = fmt.Sprintf("SELECT id FROM %s UNION SELECT id FROM %s", t.Name, u.Name)
+		default:
+			q.Cmd = ":exec"
+			q.SQL = fmt.Sprintf("DELETE FROM %s WHERE id NOT IN (SELECT b.id FROM %s b)", t.Name, u.Name)
+		}
+	case 14:
+		tag = "truncate-or-plain-dml"
+		q.Cmd = ":exec"
+		q.SQL = r.Pick([]string{"TRUNCATE " + t.Name, fmt.Sprintf("DELETE FROM %s", t.Name), fmt.Sprintf("UPDATE %s SET %s = %s", t.Name, c1.Name, w.lit(c1.Type))})
+	case 15:
+		tag = "expr-where-params"
+		q.SQL = fmt.Sprintf("SELECT id FROM %s WHERE %s AND %s = %s", t.Name, w.expr("", t, 1)+" IS NOT NULL", c1.Name, w.ph())
+	case 16:
+		tag = "order-group-having"
+		q.SQL = fmt.Sprintf("SELECT %s, count(*) AS n FROM %s WHERE %s = %s GROUP BY %s HAVING count(*) > %s ORDER BY %s", c1.Name, t.Name, c2.Name, w.ph(), c1.Name, w.ph(), c1.Name)
+	case 17:
+		tag = "join-expr-targets"
+		q.SQL = fmt.Sprintf("SELECT %s, b.%s FROM %s a JOIN %s b ON b.id = a.id WHERE a.%s = %s", w.targets("a", t), d1.Name, t.Name, u.Name, c1.Name, w.ph())
+	case 18:
+		if pg {
+			tag = "returning-exprs"
+			q.Cmd = ":one"
+			q.SQL = fmt.Sprintf("UPDATE %s SET %s = %s WHERE id = %s RETURNING %s", t.Name, c1.Name, w.ph(), w.ph(), w.targets("", t))
+		} else {
+			tag = "limit-params"
+			q.SQL = fmt.Sprintf("SELECT id FROM %s WHERE %s = ? LIMIT ?", t.Name, c1.Name)
+			w.n = 2
+		}
+	default:
+		tag = "scalar-subselect-target"
+		q.SQL = fmt.Sprintf("SELECT a.id, (SELECT count(*) FROM %s b WHERE b.%s = %s) AS n, %s FROM %s a", u.Name, d1.Name, w.ph(), w.expr("a", t, 1), t.Name)
+	}
+	q.NParams = w.n
+	q.Tags = []string{"wide:" + tag}
+	q.Known = known
+	return q, ""
+}
